@@ -72,7 +72,18 @@ type Units struct {
 	changed bool
 	fns     []*ssa.Function
 	ret     map[*ssa.Function][]ukind // inferred result kinds of library functions
+	fld     map[string]ukind          // field-based: kinds stored into struct fields the table does not name
 	Sinks   []USink
+}
+
+// fieldOr: the kind of a field by the table or, failing that, the join of everything the library
+// stores into that field of that struct type (a small value object bundling a block's data and
+// selection carries their kinds).
+func (u *Units) fieldOr(fr fieldRef, k ukind) ukind {
+	if k != uBot {
+		return k
+	}
+	return u.fld[fr.Struct+"."+fr.Field]
 }
 
 func (u *Units) accSet(v ssa.Value, k ukind) {
@@ -218,7 +229,7 @@ func RunUnits(p *Prog) *Units {
 		fmt.Sscanf(v, "%d", &uShift)
 	}
 	u := &Units{p: p, k: map[ssa.Value]ukind{}, acc: map[ssa.Value]ukind{}, dynArgs: map[*ssa.Parameter][]ukind{},
-		cellPar: map[ssa.Value]*ssa.Parameter{}, ret: map[*ssa.Function][]ukind{}}
+		cellPar: map[ssa.Value]*ssa.Parameter{}, ret: map[*ssa.Function][]ukind{}, fld: map[string]ukind{}}
 	for fn := range p.modFunc {
 		if topFn(fn).Origin() != nil {
 			continue // instances repeat their generic origin
@@ -376,7 +387,7 @@ func (u *Units) analyse(fn *ssa.Function, check bool) {
 			switch x := ins.(type) {
 			case *ssa.FieldAddr:
 				fr, _ := fieldOf(x)
-				u.k[x] = fieldKind(fr, x.Type())
+				u.k[x] = u.fieldOr(fr, fieldKind(fr, x.Type()))
 			case *ssa.Field:
 				fr, _ := fieldOf(x)
 				k := fieldKind(fr, nil)
@@ -385,7 +396,7 @@ func (u *Units) analyse(fn *ssa.Function, check bool) {
 						k = uPtrAbs
 					}
 				}
-				u.k[x] = k
+				u.k[x] = u.fieldOr(fr, k)
 			case *ssa.UnOp:
 				if x.Op == token.MUL {
 					k := u.val(x.X)
@@ -405,6 +416,16 @@ func (u *Units) analyse(fn *ssa.Function, check bool) {
 					u.accSet(a, u.val(x.Val))
 				case *ssa.FreeVar:
 					u.accSet(a, u.val(x.Val))
+				case *ssa.FieldAddr:
+					if fr, ok := fieldOf(a); ok && fieldKind(fr, a.Type()) == uBot {
+						if k := u.val(x.Val); k != uBot {
+							key := fr.Struct + "." + fr.Field
+							if n := ujoin(u.fld[key], k); n != u.fld[key] {
+								u.fld[key] = n
+								u.changed = true
+							}
+						}
+					}
 				}
 				if check {
 					if fr, ok := fieldOf(x.Addr); ok && fieldKind(fr, nil) == uAbs && fr.Struct != "commit.Reader" {
